@@ -81,7 +81,7 @@ type C02Tool struct {
 	IsError    bool            `json:"iserror,omitempty"`
 	Structured json.RawMessage `json:"structured,omitempty"`
 	Meta       json.RawMessage `json:"meta,omitempty"`
-	Err        *StrSpec        `json:"err,omitempty"` // handler returns this Go error instead
+	Err        *StrSpec        `json:"err,omitempty"`   // handler returns this Go error instead
 	Hints      []int           `json:"hints,omitempty"` // 4 entries: -1 unset, 0 false, 1 true (readOnly destructive idempotent openWorld)
 	Title      string          `json:"title,omitempty"`
 	Props      []string        `json:"props,omitempty"` // input schema: "s:name" "n:name" "i:name" "b:name" "a:name" "o:name" (+"!" suffix = required)
